@@ -20,13 +20,14 @@ const prop = "C13"
 
 // kase is the replayable description of one case (all parts).
 type kase struct {
-	Part    string      `json:"part"` // "A" enumerated declaration, "K" published vector, "E" hand-written edge, "B" gate
-	Name    string      `json:"name,omitempty"`
-	Inputs  []*ref.Node `json:"inputs,omitempty"`
-	Indexed []bool      `json:"indexed,omitempty"`
-	Index   int         `json:"index,omitempty"` // K / E: table index
-	Logs    []logT      `json:"logs,omitempty"`  // B
-	Sig     string      `json:"sig,omitempty"`   // informational: reference signature
+	Part     string      `json:"part"` // "A" enumerated declaration, "K" published vector, "E" hand-written edge, "B" gate
+	Name     string      `json:"name,omitempty"`
+	Inputs   []*ref.Node `json:"inputs,omitempty"`
+	Indexed  []bool      `json:"indexed,omitempty"`
+	Selected []bool      `json:"selected,omitempty"` // B: inputs bound to a column (absent = all)
+	Index    int         `json:"index,omitempty"`    // K / E: table index
+	Logs     []logT      `json:"logs,omitempty"`     // B
+	Sig      string      `json:"sig,omitempty"`      // informational: reference signature
 }
 
 func init() {
@@ -34,14 +35,14 @@ func init() {
 		ID:        "C13",
 		Level:     "exploration",
 		Technique: "small-scope exhaustive enumeration: (A) event names x ABI type trees x indexed layouts judged against an independent canonicaliser + independent Keccak-256 and a table of published topic0 hashes; (B) real dig.Integration.Insert on a fake wpg.Conn over a log alphabet (alone and all ordered pairs), rows attributed to logs by log_idx",
-		Rule: "A: names {T,Transfer,a_b1,X9} x every input list of 0..3 inputs whose type trees (leaf | T[] | T[k], k in {1,2,10,12} | tuple of 1..3 fields, tuple nesting <= 3, multi-dimensional arrays) total <= 5 nodes over 8 leaf spellings " +
-			"(thorough: additionally exactly 6 nodes over 4 leaf spellings) x every indexed layout; plus 17 published (declaration, topic0) vectors (Seaport OrderFulfilled as JSON-ABI text) and 8 hand-written edge declarations given as JSON-ABI text. Non-trivial = declaration contains a tuple or an array. " +
-			"B: events 'Transfer' with 1..3 inputs over {uint256,address,bytes} in every indexed layout and a non-indexed tuple (uint256,bytes) (thorough: also string,bool), every input selected; per event 46 logs " +
-			"(9 topic0 variants x 1..5 topics, plus the empty topic list), each alone and every ordered pair in one tx, fresh Integration per log set. Non-trivial = log set contains a non-matching log.",
+		Rule: "A: names {T,Transfer,a_b1,X9} x every input list of 0..3 inputs whose type trees (leaf | T[] | T[k], k in {1,2,10,12} | tuple of 1..3 fields, tuple nesting <= 3, multi-dimensional arrays) total <= 4 nodes over 8 leaf spellings plus exactly 5 nodes over 4 leaf spellings {uint256,address,bytes,bytes32} " +
+			"(thorough: <= 5 nodes over 8 leaf spellings plus exactly 6 nodes over the 4) x every indexed layout; plus 17 published (declaration, topic0) vectors (Seaport OrderFulfilled as JSON-ABI text) and 8 hand-written edge declarations given as JSON-ABI text. Non-trivial = declaration contains a tuple or an array. " +
+			"B: events 'Transfer' with 1..3 inputs over {uint256,address,bytes} indexed or not and a tuple (uint256,bytes) indexed or not (thorough: also string,bool), x every selection pattern (each input with or without a column, at least one selected; an indexed tuple is never selected; unselected non-indexed inputs are still carried in the data); per integration 46 logs " +
+			"(9 topic0 variants x 1..5 topics, plus the empty topic list), each alone and every ordered pair in one tx (quick tier, integrations with an unselected input: only the pairs in which at least one log carries the declared hash or no topics, 562 instead of 2162 log sets), fresh Integration per log set. The expected topic count is always (indexed inputs of the DECLARATION)+1, whatever is selected. Non-trivial = log set contains a non-matching log.",
 		Assumptions: []string{
 			"reference signature = ref.EventSignature (h/ref/sig.go, written from the Solidity ABI spec); reference hash = ref.Keccak256 (independent Keccak-f[1600]); the 17 published topic0 values are checked against the reference hash first (harness error if they disagree)",
 			"part B judges WHICH logs produce rows (count per log, attributed by the log_idx column), not the other column values (C11); arrays are not used in part B so that a matching log yields exactly one row",
-			"part B selects every input (a selected input is required for log indexing); an indexed tuple with selected components is not enumerated (its components cannot be read from topics)",
+			"part B selects at least one input (a selected input is required for log indexing); an indexed tuple with selected components is not enumerated (its components cannot be read from topics)",
 			"configurations are completed by config.ValidateFix and handed to dig.New exactly as shovel/task.go NewDestination does; no filters, no notifications, so only CopyFrom of the fake connection is used",
 			"logs with 5 topics (impossible on chain, representable in eth.Log) are included so that 'more topics than indexed inputs' is covered for 3 indexed inputs",
 		},
@@ -86,7 +87,7 @@ func replay(c *fw.Ctx, raw json.RawMessage) {
 	case "E":
 		evalEdge(c, k.Index)
 	case "B":
-		ev, err := newEventB(k.Name, k.Inputs, k.Indexed)
+		ev, err := newEventB(k.Name, k.Inputs, k.Indexed, k.Selected)
 		if err != nil {
 			c.HarnessError("replay: %v", err)
 			return
